@@ -46,7 +46,7 @@ theorem minGo_split (g : Int → Int) : ∀ (l : List Int) (r : Int),
         · exact hpost y (by rw [← heq.2]; exact hy)
       | cons p ps =>
         simp only [List.cons_append, List.cons.injEq] at heq
-        refine ⟨r :: v :: ps, post, by simp [heq.2], ?_, hpost⟩
+        refine ⟨r :: v :: ps, post, by simp only [List.cons_append, List.cons.injEq, true_and]; exact heq.2, ?_, hpost⟩
         intro y hy
         simp only [List.mem_cons] at hy
         have hmr : g (minGo g r vs) < g r := hpre r (by rw [heq.1]; simp)
